@@ -364,7 +364,7 @@ template< typename T, typename F>
 template< typename T, typename F>
    FixedStringIterator< T, F>& FixedStringIterator< T, F>::operator --()
 {
-   if (mpObject != nullptr)
+   if ((mpObject != nullptr) && (mIndex != EndValue))
    {
       if (mIndex > 0)
          --mIndex;
